@@ -115,7 +115,7 @@ int main(int argc, char** argv) {
         GEOS_finish_r(h); return 0; }
     if (argc < 5) return 2;
     uint64_t seed = std::stoull(argv[2]); long n = std::stol(argv[3]); Out out(argv[4]); Rng r(seed);
-    GridGen gen(r, h, &out);
+    GridGen gen(r, h, &out); gen.walkPct = 15;
     for (long i = 0; i < n; i++) {
         gen.span = r.chance(60) ? 6 : (r.chance(50) ? 3 : 12);
         gen.setPartner(GGeom{}, 0);
@@ -128,7 +128,8 @@ int main(int argc, char** argv) {
         int mode = (int) r.below(100);
         if (mode < 4) B = A;
         else if (mode < 10 && gen.holeSwallower(A, B)) {}
-        else { if (mode < 22) gen.setPartnerInterior(A); B = gen.geom(3, true, true); }
+        else if (mode < 20) B = gen.partialCover(A, true);
+        else { if (mode < 30) gen.setPartnerInterior(A); B = gen.geom(3, true, true); }
         if (!wantRect && r.chance(50)) std::swap(A, B);
         // arbitrary-double similarity: rotation (none for rectangle cases half of the time), scale 1e-3..1e9, offset
         DX t; double mag = std::pow(10.0, r.range(-3, 9) + r.unit()); double th = (wantRect || r.chance(25)) ? 0.0 : r.unit() * 6.283185307179586;
